@@ -200,6 +200,12 @@ func init() {
 		ammOnly := v.Gen(w, c, gen.Mix{"swapIn1": 10, "swapOut1": 5, "joinSingle": 4, "joinAll": 3, "exit": 3})
 		ammOnly.Free(12, nil)
 		g.Free(n-4*seg, g.StdDt)
+		// every third instance ends with the custody-exhaustion schedules of the faults catalogue
+		// (a year of one block by governance, then owners close parts of their positions)
+		if c.Job.Index%3 == 2 && !w.Dead {
+			applyFault(c, w, g, "fast_year_then_owner_partial_closes", nil)
+			applyFault(c, w, g, "gap_then_owner_partial_closes", nil)
+		}
 		_ = sdk.Coin{}
 	})
 }
